@@ -27,7 +27,7 @@ def B(**kw):
 
 LEAVES = [
     B(ret=['ok']), B(ret=['continue']), B(ret=['fail']), B(ret=['skip']), B(ret=['stop']), B(ret=['fail_subtest']),
-    B(ret=['raise']), B(ret=['raise_f']), B(ret=['bad']), B(ret=['bad0']), B(ret=['hang']), B(ret=['sysexit']),
+    B(ret=['raise']), B(ret=['raise_f']), B(ret=['raise_fsub']), B(ret=['raise_fbase']), B(ret=['bad']), B(ret=['bad0']), B(ret=['hang']), B(ret=['sysexit']),
     B(ret=['ok'], meas='pass'), B(ret=['ok'], meas='fail'), B(ret=['ok'], meas='unset'), B(ret=['ok'], meas='marg'), B(ret=['ok'], meas='nocopy'),
     B(ret=['ok'], meas='dimunset'), B(ret=['ok'], meas='dimset'), B(ret=['ok'], diag=['AFlist']),
     B(ret=['ok'], diag=['A']), B(ret=['ok'], diag=['iA']), B(ret=['ok'], diag=['FA']), B(ret=['ok'], diag=['raise']), B(ret=['ok'], diag=['raise', 'FA']),
@@ -41,6 +41,8 @@ LEAVES = [
     B(ret=['ok'], meas=['fail', 'pass'], opts={'repeat_on_measurement_fail': True}),
     B(ret=['ok'], meas=['fail', 'fail', 'fail'], opts={'repeat_on_measurement_fail': True}),
     B(ret=['hang', 'ok'], opts={'repeat_on_timeout': True}),
+    B(ret=['sysexit', 'ok'], opts={'repeat_on_timeout': True}),
+    B(ret=['repeat', 'ok'], meas=['dimbad', 'dimgood']),
     B(ret=['hang'], opts={'repeat_on_timeout': True, 'repeat_limit': 2}),
     B(ret=['ok'], meas='fail', opts={'stop_on_measurement_fail': True}),
     B(ret=['ok'], meas='unset', opts={'stop_on_measurement_fail': True}),
@@ -369,6 +371,7 @@ def run_aborts(rep, tier):
   cfgs = [(('plain3', 1, 'thread', 'wide'), 0), (('group', 1, 'thread', 'wide'), 0)]
   if tier == 'thorough':
     cfgs += [(('subtest', 1, 'thread', 'wide'), 0), (('repeat', 1, 'thread', 'wide'), 0), (('plain3', 1, 'thread', 'body'), 1)]
+  explore.set_plan(common.thorough_budget(tier, 300.0), len(cfgs))
   for cfg, bound in cfgs:
     r = explore.explore('C01:A:%r' % (cfg,), lambda ch, cfg=cfg: c04.execute(cfg, ch), abort_check(cfg), bound, cap=60000)
     rep.merge_violations(r['violations'])
